@@ -76,10 +76,35 @@ def _work(modname: str) -> dict:
     return res
 
 
+def _creation_history() -> None:
+    """history before any catalogue module is looked at (once per worker process): symbols,
+    functions and quantities of unrelated dimensions are created from a second thread and in the
+    main thread; the declared dimensions of the catalogue's symbols must not notice"""
+    import threading
+    import symplyphysics  # noqa: F401  (the shared symbols exist before the history starts)
+    from sympy.physics import units as U
+    from symplyphysics import Symbol, Function, Quantity, clone_as_symbol, symbols
+
+    def create() -> None:
+        for k in range(40):
+            d = (U.charge, U.luminous_intensity, U.amount_of_substance / U.time, U.temperature**2)[k %
+                4]
+            Symbol(None, d)
+            Symbol("t", d)
+            Function(None, dimension=d)
+            Quantity((k + 1) * U.candela)
+            clone_as_symbol(symbols.time, subscript=str(k))
+
+    th = threading.Thread(target=create)
+    th.start()
+    th.join()
+    create()
+
+
 def main(run: Run) -> int:
     mods = rotate(catalogue.discover(), run.seed * 31)
     nodes = edges = 0
-    for r in pmap(_work, mods, chunksize=6):
+    for r in pmap(_work, mods, chunksize=6, init=_creation_history):
         n = r.pop("n")
         run.evaluations += n
         r["n"] = 0
@@ -94,7 +119,9 @@ def main(run: Run) -> int:
         "node of the equation tree is assigned an exponent vector; all cases distinct and "
         "non-trivial",
         exhaustive=True,
-        assumptions=["homogeneity is judged against declared dimensions", "plain sympy symbols "
+        assumptions=["every worker first creates unrelated symbols / functions / quantities from a "
+            "second thread and from the main thread (a harmless history on a correct tree)",
+            "homogeneity is judged against declared dimensions", "plain sympy symbols "
             "(dummies, indices, field parameters) are wildcards", "functions other than exp / "
             "trigonometric / hyperbolic do not constrain their arguments (as the property words it)"])
 
